@@ -33,7 +33,15 @@ let xop_json = function
   | XClose i -> JL [ JS "close"; JI i ]
   | XDup (h, iv, nf, rf) -> JL [ JS "dup"; JI h; JI iv; JI nf; JI rf ] | XDestroy h -> JL [ JS "destroy"; JI h ]
 
-let name_of n = Printf.sprintf "t%02d.mtbl" n
+(* names 6.. live in a subdirectory of the setfile's directory: their setfile lines are relative paths with a
+   directory part, which the fileset resolves against the directory of the setfile (not the working directory) *)
+let name_of n = if n >= 6 then Printf.sprintf "sub/t%02d.mtbl" n else Printf.sprintf "t%02d.mtbl" n
+(* how a name is written in the setfile; a function of the name only, so that the same file is always named by
+   the same string (the fileset recognises an already-loaded file by its path string) *)
+let line_of dir n = match n mod 4 with
+  | 1 -> Filename.concat dir (name_of n)              (* absolute *)
+  | 2 -> "./" ^ name_of n                             (* relative, with a directory part *)
+  | _ -> name_of n
 let filt f = if f = 0 then None else Some (n_of_int (f - 1))
 
 let to_model (ops : xop list) : fop list =
@@ -62,9 +70,11 @@ let run_impl dir ~interval ~nf ~rf (ops : xop list) : child_end =
     let mtime = ref 1000.0 in
     let write_setfile (lines : int list) ~absolute =
       let oc = open_out setfile in
-      List.iteri (fun i n -> output_string oc ((if absolute && i mod 2 = 0 then Filename.concat dir (name_of n) else name_of n) ^ "\n")) lines;
+      ignore absolute;
+      List.iter (fun n -> output_string oc (line_of dir n ^ "\n")) lines;
       close_out oc;
       mtime := !mtime +. 1.0; Unix.utimes setfile !mtime !mtime in
+    (try Unix.mkdir (Filename.concat dir "sub") 0o755 with _ -> ());
     write_setfile [] ~absolute:false;
     let sec = ref 1000 and nsec = ref 0 in
     c_set_clock !sec !nsec;
